@@ -256,5 +256,35 @@ def check_flips(case, ctx):
         ctx.ok("array view and .array agree", np.array_equal(view, x), route=r)
 
 
+def check_flips_inplace(case, ctx):
+    """same law for a container filled after construction: QuaternionArray() then from_DCM(R) (in place by default); the signs
+    are whatever the matrix conversion produced"""
+    import ahrs
+    T = case.p["T"]
+    R = np.array([rq.refR(t / np.linalg.norm(t)) for t in T])
+    r = "QuaternionArray.remove_jumps"
+
+    def run():
+        QA = ahrs.QuaternionArray()
+        QA.from_DCM(R.copy())
+        before = np.array(QA.array, float)
+        QA.remove_jumps()
+        return before, np.array(QA.array, float)
+    out = call(run)
+    if not ctx.returned(out, clause="no-exception[filled in place by from_DCM]", route=r):
+        return
+    before, x = out.value
+    if as_real_array(ctx, x, T.shape, route=r, what="corrected array") is None:
+        return
+    ctx.note("in-place container: %d sign jumps before" % int((np.linalg.norm(np.diff(before, axis=0), axis=1) > 1).sum()) if len(before) > 1 else "in-place container: single row")
+    if len(x) > 1:
+        ctx.le("no consecutive jump (|q[i+1]-q[i]| <= 1) [container filled in place]", np.linalg.norm(np.diff(x, axis=0), axis=1).max(), 1.0,
+               {"jumps_before": np.flatnonzero(np.linalg.norm(np.diff(before, axis=0), axis=1) > 1), "N": len(x)}, route=r)
+    ctx.le("rows represent the same rotations (equal up to sign) [container filled in place]", np.minimum(np.abs(x - before).max(axis=1), np.abs(x + before).max(axis=1)).max(), ULP, route=r)
+    ctx.le("first row keeps its sign [container filled in place]", np.abs(x[0] - before[0]).max(), ULP, route=r)
+
+
 def check(case, ctx):
+    if case.route == "flips":
+        check_flips_inplace(case, ctx)
     {"pair": check_pair, "nan": check_nan, "flips": check_flips}[case.route](case, ctx)
